@@ -4,13 +4,13 @@
 import Ctrmml.Proofs.SongChunk
 import Ctrmml.Spec.PlainFragment
 namespace Ctrmml.SongTop
-open Ctrmml Ctrmml.WFold Ctrmml.SongSem Ctrmml.SongSplit Ctrmml.Tree Ctrmml.Fragment Tables
+open Ctrmml Ctrmml.WFold Ctrmml.WTrace Ctrmml.SongSem Ctrmml.SongSplit Ctrmml.Tree Ctrmml.Fragment Tables
 
 theorem simpleEv_of_B {e : Event} (h : simpleEvB e = true) : SimpleEv e := by
   unfold simpleEvB at h
   simp only [Bool.and_eq_true, Bool.or_eq_true, bne_iff_ne, beq_iff_eq, decide_eq_true_eq, ne_eq] at h
-  obtain ⟨⟨⟨⟨h1, h2⟩, h3⟩, h4⟩, h5⟩ := h
-  refine ⟨h1, h2, fun t => ?_, fun t => ?_, fun t => ?_⟩
+  obtain ⟨⟨⟨h1, h3⟩, h4⟩, h5⟩ := h
+  refine ⟨h1, fun t => ?_, fun t => ?_, fun t => ?_⟩
   · rcases h3 with h | h
     · exact absurd t h
     · exact h
@@ -45,17 +45,39 @@ theorem sorted_of_B : ∀ (l : List Nat), sortedB l = true → l.Pairwise (· < 
     simp only [sortedB, Bool.and_eq_true, List.all_eq_true, decide_eq_true_eq] at h
     exact List.Pairwise.cons h.1 (sorted_of_B l h.2)
 
+theorem drumTop_of_B {t : List Event} (h : drumTopB t = true) :
+    ∀ n ∈ parse t, ∀ e ∈ flattenN n, e.type = ev_DRUM_MODE → n = .ev e := by
+  unfold drumTopB at h
+  simp only [List.all_eq_true] at h
+  intro n hn e he te
+  have := h n hn
+  cases n with
+  | ev e' => simp [flattenN] at he; rw [he]
+  | brk e' =>
+    simp only [List.all_eq_true, bne_iff_ne, ne_eq] at this
+    exact absurd te (this e he)
+  | loop ls b le =>
+    simp only [List.all_eq_true, bne_iff_ne, ne_eq] at this
+    exact absurd te (this e he)
+  | strayEnd e' =>
+    simp only [List.all_eq_true, bne_iff_ne, ne_eq] at this
+    exact absurd te (this e he)
+  | openLoop ls b =>
+    simp only [List.all_eq_true, bne_iff_ne, ne_eq] at this
+    exact absurd te (this e he)
+
 /-- **the executable fragment predicate is sound** -/
 theorem plainSong_of_B {song : Song} (h : plainSongB song = true) : PlainSong song := by
   unfold plainSongB at h
   simp only [Bool.and_eq_true, List.all_eq_true] at h
-  obtain ⟨hs, ht⟩ := h
+  obtain ⟨⟨hs, ht⟩, hdt⟩ := h
   have hev : ∀ id t, (id, t) ∈ song.tracks → ∀ e ∈ t, e.kind ≠ .fin ∧ evB e = true ∧ calleeB song e = true := by
     intro id t hm e he
     have := ht (id, t) hm e he
     simp only [bne_iff_ne, ne_eq] at this
     exact ⟨this.1.1, this.1.2, this.2⟩
-  refine ⟨sorted_of_B _ hs, fun id t hm e he => (hev id t hm e he).1, fun id t hm e he => ?_, fun id t hm e he hk => ?_⟩
+  refine ⟨sorted_of_B _ hs, fun id t hm e he => (hev id t hm e he).1, fun id t hm e he => ?_, fun id t hm e he hk => ?_,
+    fun id t hm => drumTop_of_B (hdt (id, t) hm)⟩
   · have h2 := (hev id t hm e he).2.1
     unfold evB at h2
     simp only [Bool.and_eq_true, Bool.or_eq_true, bne_iff_ne, decide_eq_true_eq, ne_eq] at h2
@@ -70,11 +92,140 @@ theorem plainSong_of_B {song : Song} (h : plainSongB song = true) : PlainSong so
     · exact absurd hk h'
     · intro t' htr
       rw [htr] at h'
-      simp only [List.all_eq_true, bne_iff_ne, ne_eq] at h'
+      simp only [List.all_eq_true, Bool.and_eq_true, bne_iff_ne, ne_eq] at h'
       exact h'
 
 theorem segCount_of_B {root : List Event} (h : segCountB root = true) : segCount root ≤ 1 := by
   unfold segCountB at h
   simpa [segCount] using h
+
+theorem dAfterL_drumOfE (d : Bool) : ∀ (l : List Event), dAfterL d (l.map fun e => tItem e e) = drumOfE d l
+  | [] => rfl
+  | e :: l => by
+    simp only [List.map_cons, dAfterL, drumOfE, dAfter]
+    exact dAfterL_drumOfE _ l
+
+theorem loopDrum_of_B' : ∀ (a : List Event) (d : Bool) (s : Event) (c : List Event), loopDrumB d (a ++ s :: c) = true →
+    s.kind = .segno → drumOfE (drumOfE d a) c = drumOfE d a
+  | [], d, s, c, h, hs => by
+    have hnd : ¬ s.type = ev_DRUM_MODE := by
+      intro t
+      have : s.kind = .other := by unfold Event.kind kindOfType; simp +decide [t]
+      rw [hs] at this; cases this
+    simp only [List.nil_append, loopDrumB, if_neg hnd, Bool.and_eq_true, Bool.or_eq_true, bne_iff_ne, ne_eq, beq_iff_eq] at h
+    rcases h.1 with h' | h'
+    · exact absurd hs h'
+    · simpa [drumOfE] using h'
+  | e :: a, d, s, c, h, hs => by
+    simp only [List.cons_append, loopDrumB, Bool.and_eq_true] at h
+    simp only [drumOfE]
+    exact loopDrum_of_B' a _ s c h.2 hs
+
+theorem loopDrum_of_B {root : List Event} (h : loopDrumB false root = true) : LoopDrumOK root := by
+  intro a s c hroot hs
+  rw [dAfterL_drumOfE, dAfterL_drumOfE]
+  rw [hroot] at h
+  exact loopDrum_of_B' a false s c h hs
+
+theorem splitNote_spec : ∀ (f : List Tree.Node) (a : List Tree.Node) (x : Event) (b : List Tree.Node),
+    splitNote f = some (a, x, b) → f = a ++ Tree.Node.ev x :: b ∧ x.type = ev_NOTE
+  | [], _, _, _, h => by simp [splitNote] at h
+  | .ev e :: ns, a, x, b, h => by
+    unfold splitNote at h
+    by_cases t : e.type = ev_NOTE
+    · rw [if_pos t] at h
+      simp only [Option.some.injEq, Prod.mk.injEq] at h
+      obtain ⟨rfl, rfl, rfl⟩ := h
+      exact ⟨rfl, t⟩
+    · rw [if_neg t] at h
+      cases hr : splitNote ns with
+      | none => rw [hr] at h; simp at h
+      | some p =>
+        obtain ⟨a', x', b'⟩ := p
+        rw [hr] at h
+        simp only [Option.map_some, Option.some.injEq, Prod.mk.injEq] at h
+        obtain ⟨rfl, rfl, rfl⟩ := h
+        obtain ⟨h1, h2⟩ := splitNote_spec ns a' x' b' hr
+        exact ⟨by rw [h1]; rfl, h2⟩
+  | .brk e :: ns, a, x, b, h => by
+    simp only [splitNote] at h
+    cases hr : splitNote ns with
+    | none => rw [hr] at h; simp at h
+    | some p =>
+      obtain ⟨a', x', b'⟩ := p
+      rw [hr] at h
+      simp only [Option.map_some, Option.some.injEq, Prod.mk.injEq] at h
+      obtain ⟨rfl, rfl, rfl⟩ := h
+      obtain ⟨h1, h2⟩ := splitNote_spec ns a' x' b' hr
+      exact ⟨by rw [h1]; rfl, h2⟩
+  | .loop ls bd le :: ns, a, x, b, h => by
+    simp only [splitNote] at h
+    cases hr : splitNote ns with
+    | none => rw [hr] at h; simp at h
+    | some p =>
+      obtain ⟨a', x', b'⟩ := p
+      rw [hr] at h
+      simp only [Option.map_some, Option.some.injEq, Prod.mk.injEq] at h
+      obtain ⟨rfl, rfl, rfl⟩ := h
+      obtain ⟨h1, h2⟩ := splitNote_spec ns a' x' b' hr
+      exact ⟨by rw [h1]; rfl, h2⟩
+  | .strayEnd e :: ns, a, x, b, h => by
+    simp only [splitNote] at h
+    cases hr : splitNote ns with
+    | none => rw [hr] at h; simp at h
+    | some p =>
+      obtain ⟨a', x', b'⟩ := p
+      rw [hr] at h
+      simp only [Option.map_some, Option.some.injEq, Prod.mk.injEq] at h
+      obtain ⟨rfl, rfl, rfl⟩ := h
+      obtain ⟨h1, h2⟩ := splitNote_spec ns a' x' b' hr
+      exact ⟨by rw [h1]; rfl, h2⟩
+  | .openLoop ls bd :: ns, a, x, b, h => by
+    simp only [splitNote] at h
+    cases hr : splitNote ns with
+    | none => rw [hr] at h; simp at h
+    | some p =>
+      obtain ⟨a', x', b'⟩ := p
+      rw [hr] at h
+      simp only [Option.map_some, Option.some.injEq, Prod.mk.injEq] at h
+      obtain ⟨rfl, rfl, rfl⟩ := h
+      obtain ⟨h1, h2⟩ := splitNote_spec ns a' x' b' hr
+      exact ⟨by rw [h1]; rfl, h2⟩
+
+theorem routine_of_B {song : Song} {p : Int} (h : routineB song p = true) :
+    RoutineTrack song p ∧ ∃ ritems, Expand.callK song Expand.limit 1 (trackIdOfParam p) = .ok ritems := by
+  unfold routineB at h
+  cases htr : song.track? (trackIdOfParam p) with
+  | none => rw [htr] at h; cases h
+  | some tevs =>
+    rw [htr] at h
+    simp only at h
+    cases hsp : splitNote (parse tevs) with
+    | none => rw [hsp] at h; cases h
+    | some q =>
+      obtain ⟨fpre, note, fpost⟩ := q
+      rw [hsp] at h
+      simp only [Bool.and_eq_true, List.all_eq_true, bne_iff_ne, ne_eq] at h
+      obtain ⟨hpre, hck⟩ := h
+      obtain ⟨h1, h2⟩ := splitNote_spec _ _ _ _ hsp
+      refine ⟨⟨tevs, fpre, note, fpost, htr, h1, h2, fun e he => ?_⟩, ?_⟩
+      · obtain ⟨⟨⟨⟨⟨a1, a2⟩, a3⟩, a4⟩, a5⟩, a6⟩ := hpre e he
+        exact ⟨a1, a2, a3, a4, a5, a6⟩
+      · cases hc : Expand.callK song Expand.limit 1 (trackIdOfParam p) with
+        | error x => rw [hc] at hck; cases hck
+        | ok r => exact ⟨r, rfl⟩
+
+theorem routines_of_B {song : Song} {b : MdsFile.Built} (h : routinesB song b.conv.subMap = true) : RoutinesOK song b := by
+  unfold routinesB at h
+  simp only [List.all_eq_true, Bool.or_eq_true, bne_iff_ne, ne_eq] at h
+  intro p k hmem
+  have := h _ hmem
+  have hk : Mds.subKey p true false = p * 4 + 2 := by simp [Mds.subKey]
+  simp only [hk] at this
+  rcases this with h' | h'
+  · exact absurd (by omega) h'
+  · have e : (p * 4 + 2 - 2) / 4 = p := by omega
+    rw [e] at h'
+    exact routine_of_B h'
 
 end Ctrmml.SongTop
